@@ -508,6 +508,7 @@ def run(tier):
     calendar_table(chk)
     from . import c11 as _c11
     oblig.run_obligations(chk, _c11.asn1_sig_obligations())
+    _c11.decode_mod_covers_source(chk)
     from .c03 import hash_compare_shape
     hash_compare_shape(chk, S, 'verify_signature', 'x509-signature-hash-compare')
     chk.floor('rule instances', len(chk.obls), 35)
